@@ -223,6 +223,44 @@ def points_case(draw):
 
 
 @st.composite
+def sparse_wide_case(draw):
+    """wide, sparse systems the way they are written for many variables: 2-6 rows over 8-26 columns, 1-3 non-zero
+    coefficients per row; range constraints as two rows on one column (x >= 1, -x >= -3) and implication chains
+    (-a + b >= 0, -b + c >= 0) so that columns whose coefficients cancel over the rows are common"""
+    nc = draw(st.integers(8, 26))
+    rows = []
+    for _ in range(draw(st.integers(1, 3))):
+        kind = draw(st.sampled_from(["range", "chain", "free", "free"]))
+        if kind == "range":
+            j = draw(st.integers(0, nc - 1))
+            lo = draw(st.integers(-2, 2))
+            a1 = [0] * nc
+            a1[j] = 1
+            a2 = [0] * nc
+            a2[j] = -1
+            rows += [[lo] + a1, [-(lo + draw(st.integers(0, 3)))] + a2]
+        elif kind == "chain":
+            js = draw(st.lists(st.integers(0, nc - 1), min_size=2, max_size=4, unique=True))
+            for x, y in zip(js, js[1:]):
+                a = [0] * nc
+                a[x], a[y] = -1, 1
+                rows.append([0] + a)
+        else:
+            a = [0] * nc
+            for j in draw(st.lists(st.integers(0, nc - 1), min_size=1, max_size=3, unique=True)):
+                a[j] = draw(st.sampled_from([1, -1, 2, -2, 3]))
+            rows.append([draw(st.integers(-2, 3))] + a)
+    rows = list(draw(st.permutations(rows)))[:6]
+    nd = draw(st.sampled_from([1, 2, 3]))
+    ng = draw(st.integers(1, 2)) if nd == 3 else 1
+    npts = draw(st.integers(1, 4)) if nd >= 2 else 1
+    coord = st.sampled_from([0, 0, 1, 1, 2, 3, -1, 4])
+    groups = [[[draw(coord) for _ in range(nc)] for _ in range(npts)] for _ in range(ng)]
+    pts = groups[0][0] if nd == 1 else groups[0] if nd == 2 else groups
+    return {"m": rows, "pts": pts, "flavour": "sparse_wide"}
+
+
+@st.composite
 def extreme_case(draw):
     """rows with ONE non-zero coefficient and magnitudes near the end of int64: every A.x and every b fits int64, but
     their difference need not"""
@@ -321,4 +359,5 @@ def derived_case(draw):
 def parts(tier):
     return [Part("derived", strategy=lambda t: derived_case(), check=check_derived, quick=(3, 500), thorough=(6, 8000)),
             Part("extreme", strategy=lambda t: extreme_case(), check=check_points, quick=(1, 400), thorough=(2, 5000)),
+            Part("sparse_wide", strategy=lambda t: sparse_wide_case(), check=check_points, quick=(2, 400), thorough=(4, 5000)),
             Part("points", strategy=lambda t: points_case(), check=check_points, quick=(8, 700), thorough=(16, 20000))]
